@@ -49,7 +49,7 @@ var fnWhitelist = map[string][]string{
 		"Info.Validate", "Export.Validate", "isContainedIn", "Exports.Validate", "Exports.HasExportContainingSubject", "Mapping.Validate",
 		"CreateValidationResults", "ResponsePermission.Validate", "Permissions.Validate",
 		"OperatorLimits.IsEmpty", "OperatorLimits.Validate", "ExternalAuthorization.Validate",
-		"UserScope.Validate", "SigningKeys.Validate", "Account.Validate", "AccountClaims.Validate", "GenericClaims.Validate", "AuthorizationRequestClaims.Validate", "AuthorizationResponseClaims.Validate", "TimeRange.Validate", "Limits.Validate", "User.Validate", "UserClaims.Validate", "ParseServerVersion", "Operator.validateAccountServerURL", "ValidateOperatorServiceURL", "Operator.validateOperatorServiceURLs", "Operator.Validate", "OperatorClaims.Validate", "OperatorClaims.ExpectedPrefixes", "AccountClaims.ExpectedPrefixes", "UserClaims.ExpectedPrefixes", "ActivationClaims.ExpectedPrefixes", "AuthorizationRequestClaims.ExpectedPrefixes", "AuthorizationResponseClaims.ExpectedPrefixes", "GenericClaims.ExpectedPrefixes", "v1OperatorClaims.migrateV1", "v1UserClaims.migrateV1", "v1ActivationClaims.migrateV1", "SigningKeys.Add", "v1AccountClaims.migrateV1", "v1OperatorClaims.Migrate", "v1UserClaims.Migrate", "v1ActivationClaims.Migrate", "v1AccountClaims.Migrate", "loadOperator", "loadAccount", "loadUser", "loadActivation", "loadAuthorizationRequest", "loadAuthorizationResponse", "loadClaims", "ClaimsData.verify", "parseHeaders", "Decode", "UserClaims.Encode", "ActivationClaims.Encode", "OperatorClaims.Encode", "AccountClaims.Encode", "GenericClaims.Encode", "AuthorizationRequestClaims.Encode", "AuthorizationResponseClaims.Encode", "OperatorClaims.updateVersion", "AccountClaims.updateVersion", "UserClaims.updateVersion", "ActivationClaims.updateVersion", "AuthorizationRequestClaims.updateVersion", "AuthorizationResponseClaims.updateVersion", "DecodeActivationClaims", "DecodeOperatorClaims", "DecodeAccountClaims", "DecodeUserClaims", "DecodeAuthorizationRequestClaims", "DecodeAuthorizationResponseClaims", "UserScope.ValidateScopedSigner", "NewUserClaims", "UserClaims.SetScoped", "UserScope.SigningKey", "SigningKeys.AddScopedSigner", "SigningKeys.GetScope", "SigningKeys.Remove", "SigningKeys.Keys", "DecodeGeneric", "IssueUserJWT", "Exports.Len", "Exports.Less", "Imports.Len", "Imports.Less", "ActivationClaims.HashID", "AccountClaims.ClaimType", "ActivationClaims.ClaimType", "AuthorizationRequestClaims.ClaimType", "AuthorizationResponseClaims.ClaimType", "IsGenericClaimType", "OperatorClaims.ClaimType", "UserClaims.ClaimType", "NewAccountClaims", "NewActivationClaims", "NewAuthorizationRequestClaims", "NewAuthorizationResponseClaims", "NewGenericClaims", "NewOperatorClaims", "NewUserScope", "ExternalAuthorization.IsEnabled", "Account.HasExternalAuthorization", "Account.EnableExternalAuthorization", "OperatorLimits.IsJSEnabled", "AccountLimits.IsUnlimited", "OperatorLimits.IsUnlimited", "UserClaims.IsBearerToken", "AccountClaims.GetTags", "OperatorClaims.GetTags", "UserClaims.GetTags", "ValidationResults.Errors", "ValidationResults.Warnings", "ExportType.String", "ScopeType.String", "Exports.Add", "Imports.Add", "Account.AddMapping", "ValidationIssue.Error",
+		"UserScope.Validate", "SigningKeys.Validate", "Account.Validate", "AccountClaims.Validate", "GenericClaims.Validate", "AuthorizationRequestClaims.Validate", "AuthorizationResponseClaims.Validate", "TimeRange.Validate", "Limits.Validate", "User.Validate", "UserClaims.Validate", "ParseServerVersion", "Operator.validateAccountServerURL", "ValidateOperatorServiceURL", "Operator.validateOperatorServiceURLs", "Operator.Validate", "OperatorClaims.Validate", "OperatorClaims.ExpectedPrefixes", "AccountClaims.ExpectedPrefixes", "UserClaims.ExpectedPrefixes", "ActivationClaims.ExpectedPrefixes", "AuthorizationRequestClaims.ExpectedPrefixes", "AuthorizationResponseClaims.ExpectedPrefixes", "GenericClaims.ExpectedPrefixes", "v1OperatorClaims.migrateV1", "v1UserClaims.migrateV1", "v1ActivationClaims.migrateV1", "SigningKeys.Add", "v1AccountClaims.migrateV1", "v1OperatorClaims.Migrate", "v1UserClaims.Migrate", "v1ActivationClaims.Migrate", "v1AccountClaims.Migrate", "loadOperator", "loadAccount", "loadUser", "loadActivation", "loadAuthorizationRequest", "loadAuthorizationResponse", "loadClaims", "ClaimsData.verify", "parseHeaders", "Decode", "UserClaims.Encode", "ActivationClaims.Encode", "OperatorClaims.Encode", "AccountClaims.Encode", "GenericClaims.Encode", "AuthorizationRequestClaims.Encode", "AuthorizationResponseClaims.Encode", "OperatorClaims.updateVersion", "AccountClaims.updateVersion", "UserClaims.updateVersion", "ActivationClaims.updateVersion", "AuthorizationRequestClaims.updateVersion", "AuthorizationResponseClaims.updateVersion", "DecodeActivationClaims", "DecodeOperatorClaims", "DecodeAccountClaims", "DecodeUserClaims", "DecodeAuthorizationRequestClaims", "DecodeAuthorizationResponseClaims", "UserScope.ValidateScopedSigner", "NewUserClaims", "UserClaims.SetScoped", "UserScope.SigningKey", "SigningKeys.AddScopedSigner", "SigningKeys.GetScope", "SigningKeys.Remove", "SigningKeys.Keys", "DecodeGeneric", "IssueUserJWT", "Exports.Len", "Exports.Less", "Imports.Len", "Imports.Less", "ActivationClaims.HashID", "ClaimsData.hash", "AccountClaims.ClaimType", "ActivationClaims.ClaimType", "AuthorizationRequestClaims.ClaimType", "AuthorizationResponseClaims.ClaimType", "IsGenericClaimType", "OperatorClaims.ClaimType", "UserClaims.ClaimType", "NewAccountClaims", "NewActivationClaims", "NewAuthorizationRequestClaims", "NewAuthorizationResponseClaims", "NewGenericClaims", "NewOperatorClaims", "NewUserScope", "ExternalAuthorization.IsEnabled", "Account.HasExternalAuthorization", "Account.EnableExternalAuthorization", "OperatorLimits.IsJSEnabled", "AccountLimits.IsUnlimited", "OperatorLimits.IsUnlimited", "UserClaims.IsBearerToken", "AccountClaims.GetTags", "OperatorClaims.GetTags", "UserClaims.GetTags", "ValidationResults.Errors", "ValidationResults.Warnings", "ExportType.String", "ScopeType.String", "Exports.Add", "Imports.Add", "Account.AddMapping", "ValidationIssue.Error",
 	},
 	"V1": {
 		"Subject.HasWildCards", "Subject.IsContainedIn", "cleanSubject",
@@ -262,7 +262,8 @@ var opaqueFns = map[string]bool{"UserClaims.HasEmptyPermissions": true, "parseCl
 var foreignOpaque = map[string]string{
 	"sha256.Sum":                     "(List Int) → (List Int)",              // the digest of everything written to a sha256.New()
 	"sha512.Sum512_256":              "(List Int) → (List Int)",
-	"base32.StdEncode":               "(List Int) → Str",                     // base32.StdEncoding.EncodeToString
+	"base32.StdEncode":               "(List Int) → Str",
+	"base32.StdNoPadEncode":          "(List Int) → Str",                     // base32.StdEncoding.WithPadding(base32.NoPadding).EncodeToString                     // base32.StdEncoding.EncodeToString
 	"time.NowAddUnix":                "Int → Int",                            // time.Now().Add(d).Unix(): a parameter
 	"strconv.Atoi":                   "Str → Option Int",                     // none = the error result
 	"nkeys.FromPublicKey":            "Str → Option Nat",                     // none = the error result; a key pair is an uninterpreted handle
@@ -835,6 +836,10 @@ func (c *fnCtx) sprintfConcat(x *ast.CallExpr) (ex, bool) {
 			continue
 		}
 		if i+1 >= len(f) || f[i+1] != 's' || arg >= len(x.Args) || !isString(c.typeOf(x.Args[arg])) {
+			return ex{}, false
+		}
+		// a string type with its own String() or Error() method is printed through that method, not as its bytes
+		if ms := types.NewMethodSet(c.typeOf(x.Args[arg])); ms.Lookup(nil, "String") != nil || ms.Lookup(nil, "Error") != nil {
 			return ex{}, false
 		}
 		flush()
@@ -1507,6 +1512,10 @@ func (c *fnCtx) call(x *ast.CallExpr) ex {
 				c.g.needForeign(c.hashVars[o])
 				return ex{"(opq." + strings.ReplaceAll(c.hashVars[o], ".", "_") + " " + c.nameOf(o) + ")", false}
 			}
+		}
+		if types.ExprString(x.Fun) == "base32.StdEncoding.WithPadding(base32.NoPadding).EncodeToString" && len(x.Args) == 1 {
+			c.g.needForeign("base32.StdNoPadEncode")
+			return c.pureApp("opq.base32_StdNoPadEncode", c.expr(x.Args[0]))
 		}
 		if types.ExprString(x.Fun) == "base32.StdEncoding.EncodeToString" && len(x.Args) == 1 {
 			c.g.needForeign("base32.StdEncode")
@@ -2526,6 +2535,27 @@ func (c *fnCtx) assign(b *block, x *ast.AssignStmt) {
 			return
 		}
 	}
+	// j, err := json.Marshal(x) for a struct (or pointer to struct) of the package: the (opaque) encoder of its type
+	if len(x.Lhs) == 2 && len(x.Rhs) == 1 {
+		if call, ok := x.Rhs[0].(*ast.CallExpr); ok && selName(call.Fun) == "json.Marshal" && len(call.Args) == 1 {
+			t := c.typeOf(call.Args[0])
+			if pt, ok := t.Underlying().(*types.Pointer); ok {
+				t = pt.Elem()
+			}
+			if _, isSt := t.Underlying().(*types.Struct); isSt {
+				lt := c.g.leanType(t)
+				q := "json.Marshal" + strings.TrimPrefix(lt, "T_")
+				foreignOpaque[q] = lt + " → ((List Int) × Bool)"
+				c.g.needForeign(q)
+				c.tmpN++
+				tmp := fmt.Sprintf("__j%d", c.tmpN)
+				b.add("let %s := opq.%s %s", tmp, strings.ReplaceAll(q, ".", "_"), c.expr(call.Args[0]).bind())
+				c.store(b, x.Lhs[0], tmp+".1")
+				c.store(b, x.Lhs[1], tmp+".2")
+				return
+			}
+		}
+	}
 	// p, err = OpaqueFn(args): the two results of an opaque package function
 	if len(x.Lhs) >= 2 && len(x.Rhs) == 1 {
 		if call, ok := x.Rhs[0].(*ast.CallExpr); ok {
@@ -3173,7 +3203,7 @@ func genFns(infos []pkgInfo) (string, string, map[string]string) {
 					if g.foreignCall(call) != "" && !fi.usesOpq {
 						fi.usesOpq, changed = true, true
 					}
-					if q := selName(call.Fun); (q == "json.Unmarshal" || q == "sort.Sort") && !fi.usesOpq {
+					if q := selName(call.Fun); (q == "json.Unmarshal" || q == "json.Marshal" || q == "sort.Sort") && !fi.usesOpq {
 						fi.usesOpq, changed = true, true
 					}
 					if q := types.ExprString(call.Fun); (q == "sha256.New" || q == "sha512.New512_256" || q == "base32.StdEncoding.EncodeToString") && !fi.usesOpq {
